@@ -1,6 +1,7 @@
 /-
   Line-protocol driver: reads `OP args… :: impl answer…` lines on stdin, answers
-  `<model answer> || <spec verdict on the implementation's answer>` per line.
+  `<model answer> || <spec verdict on the implementation's answer>` per line
+  (`ACK` for lines that only set state).
 -/
 import Kitoken.Driver.Ops
 open Kitoken Kitoken.Driver
@@ -8,20 +9,27 @@ open Kitoken Kitoken.Driver
 def splitImpl (ws : List String) : List String × List String :=
   (ws.takeWhile (· != "::"), (ws.dropWhile (· != "::")).drop 1)
 
-def step (line : String) : String :=
+def step (st : State) (line : String) : State × String :=
   let ws := (line.trimAscii.toString.splitOn " ").filter (· != "")
   let (req, impl) := splitImpl ws
   match req with
-  | "PROC" :: args => handleProc args impl
-  | _ => "BAD-OP"
+  | "PROC" :: args => (st, handleProc args impl)
+  | "DECSTEP" :: args => (st, handleDecStep args impl)
+  | "DEF" :: args => handleDef st args
+  | "ENC" :: args => (st, handleEnc st args impl)
+  | "DEC" :: args => (st, handleDec st args impl)
+  | "SPLIT" :: args => (st, handleSplit args impl)
+  | "NORM" :: args => (st, handleNorm args impl)
+  | _ => (st, "BAD-OP")
 
-partial def loop (h : IO.FS.Stream) (out : IO.FS.Stream) : IO Unit := do
+partial def loop (h : IO.FS.Stream) (out : IO.FS.Stream) (st : State) : IO Unit := do
   let line ← h.getLine
   if line.isEmpty then return ()
-  out.putStrLn (step line)
-  loop h out
+  let (st', ans) := step st line
+  out.putStrLn ans
+  loop h out st'
 
 def main : IO Unit := do
   let out ← IO.getStdout
-  loop (← IO.getStdin) out
+  loop (← IO.getStdin) out {}
   out.flush
